@@ -283,6 +283,32 @@ theorem fresh_process_resolves_after_foreign_purge (hrt : ∀ v, deser (ser v) =
       freshResolve deser c st1 data = .ok v :=
   fresh_process_resolves hrt hnr hnc c hc (foreignPurge st) v hS dis guard c hc
 
+/-- **the representation of a value does not depend on a storage fault**: whenever `serialize` under a failing backend
+    write returns at all, it returns exactly what the fault-free `serialize` returns (so the call identity computed from
+    it is the canonical one) and changes nothing; otherwise the error propagates.  (Guard: capacity ≥ 1.) -/
+theorem fault_never_changes_representation (hnr : ∀ v, isRef (ser v) = false) (c : Conf) (hc : 1 ≤ c.cacheSize)
+    (st : Store V) (v : V) (guard : ∀ s, asStr v = some s → isRef s = false) (data : Str)
+    (h : (serializeFault ser asStr H c st v).2 = some (some data)) :
+    (serialize ser asStr H c st v false).2 = some data ∧ (serializeFault ser asStr H c st v).1 = st := by
+  have hr := C15P.serialize_routing (H := H) hnr c hc st v false guard
+  have hf : (asStr v).filter isRef = none := by
+    cases ha : asStr v with
+    | none => rfl
+    | some s => simp [Option.filter, guard s ha]
+  unfold serializeFault at h ⊢
+  by_cases hd : c.disabled = true
+  · simp only [hd, if_true] at h ⊢
+    simp only [Option.some.injEq] at h
+    rw [hr]; simp [hd, h]
+  · simp only [hd, Bool.false_eq_true, if_false, hf] at h ⊢
+    by_cases he : external c (ser v).length = true
+    · simp [he] at h
+    · simp only [he, Bool.false_eq_true, if_false, Option.some.injEq] at h ⊢
+      rw [hr]
+      have he' : external c (ser v).length = false := by simpa using he
+      subst h
+      simp [hd, he']
+
 /-- non-vacuity of the hypotheses: values = strings, serializer = quoting, identity "hash" on all texts -/
 example : ∃ (ser : Str → Str) (deser : Str → Option Str) (H : Str → Str),
     (∀ v, deser (ser v) = some v) ∧ (∀ v, isRef (ser v) = false) ∧ NoColl H (fun _ => True) :=
